@@ -274,7 +274,12 @@ func (c *Chunk) addLocked(chunk pb.Chunk) bool {
 	}
 	if c.shouldValidate(chunk) {
 		if !td.validator.AddChunk(chunk.Data, chunk.ChunkId) {
-			plog.Warningf("ignored a invalid chunk %s", key)
+			// a block of the snapshot file failed its checksum, the bad block has
+			// already been consumed by the validator and td.next has been moved
+			// forward. drop the stream so it is not finalized with this chunk missing.
+			plog.Warningf("invalid chunk %s, snapshot dropped", key)
+			c.removeTempDir(td.first)
+			c.reset(key)
 			return false
 		}
 	}
